@@ -557,3 +557,139 @@ Definition names_conform (row : N * list string) : bool :=
   end.
 Lemma names_all_conform : forallb names_conform field_names = true /\ map fst field_names = map l_id layouts.
 Proof. split; vm_compute; reflexivity. Qed.
+
+(* ------------------------------------------------- whole PDUs with the TLVs in any order *)
+Definition is_tags (k : fkind) : bool := match k with FTags => true | _ => false end.
+
+(* the walk over a TLV-free prefix of the field list, with arbitrary octets behind it *)
+Lemma fields_roundtrip_tail lay ks2 tail : forall ks vs seen u_enc u_dec b,
+  existsb is_tags ks = false ->
+  ctx_ok (l_has_esm lay) (l_replace lay) seen ks = true ->
+  (seen = true -> u_dec = u_enc) ->
+  (seen = false -> u_enc = udhi_of vs) ->
+  wf_fields lay u_enc ks vs = true ->
+  enc_fields lay u_enc ks vs = Ok b ->
+  exists u', dec_fields lay (ks ++ ks2) (b ++ tail) u_dec
+             = obind (dec_fields lay ks2 tail u') (fun vs2 => Ok (map norm_val vs ++ vs2)).
+Proof.
+  induction ks as [|k ks IH]; intros [|v vs] seen u_enc u_dec b Ht Hctx Hseen Hnot Hw He; try discriminate.
+  - apply Ok_inj in He. subst b. exists u_dec. cbn [app map]. destruct (dec_fields lay ks2 tail u_dec); reflexivity.
+  - cbn [existsb] in Ht. apply orb_false_iff in Ht. destruct Ht as [Htk Ht].
+    cbn [wf_fields] in Hw. apply andb_true_iff in Hw. destruct Hw as [Hv Hvs].
+    cbn [enc_fields] in He.
+    destruct (enc_field lay u_enc k v) as [b1| |] eqn:E1; cbn [obind] in He; try discriminate.
+    destruct (enc_fields lay u_enc ks vs) as [b2| |] eqn:E2; cbn [obind] in He; try discriminate.
+    apply Ok_inj in He. subst b. rewrite <- app_assoc. cbn [app dec_fields map].
+    assert (Hcont : forall seen' ud, ctx_ok (l_has_esm lay) (l_replace lay) seen' ks = true ->
+                    (seen' = true -> ud = u_enc) -> (seen' = false -> u_enc = udhi_of vs) ->
+                    exists u', dec_fields lay (ks ++ ks2) (b2 ++ tail) ud
+                               = obind (dec_fields lay ks2 tail u') (fun vs2 => Ok (map norm_val vs ++ vs2))).
+    { intros seen' ud C1 C2 C3. eapply IH; eassumption. }
+    assert (Hfin : forall ud v', (exists u', dec_fields lay (ks ++ ks2) (b2 ++ tail) ud
+                               = obind (dec_fields lay ks2 tail u') (fun vs2 => Ok (map norm_val vs ++ vs2))) ->
+              exists u', obind (dec_fields lay (ks ++ ks2) (b2 ++ tail) ud) (fun vs0 => Ok (v' :: vs0))
+                         = obind (dec_fields lay ks2 tail u') (fun vs2 => Ok (v' :: map norm_val vs ++ vs2))).
+    { intros ud v' [u' E]. exists u'. rewrite E. destruct (dec_fields lay ks2 tail u'); reflexivity. }
+    assert (Hsame : seen = false -> u_enc = udhi_of vs -> True) by trivial.
+    destruct k, v; cbn [wf_field] in Hv; try discriminate; cbn [enc_field] in E1; cbn [ctx_ok] in Hctx; try discriminate;
+      cbn [is_tags] in Htk; try discriminate.
+    + rewrite (nulfree_no_nul _ Hv) in E1. apply Ok_inj in E1. subst b1. cbn [dec_field]. rewrite (dec_cstr_enc _ _ Hv). cbn [obind norm_val].
+      apply Hfin. apply (Hcont seen u_dec Hctx Hseen). intros Hs. rewrite (Hnot Hs). reflexivity.
+    + apply Ok_inj in E1. subst b1. cbn [dec_field app dec_u8 obind norm_val].
+      apply Hfin. apply (Hcont seen u_dec Hctx Hseen). intros Hs. rewrite (Hnot Hs). reflexivity.
+    + apply Ok_inj in E1. subst b1. unfold enc_bool. cbn [dec_field app dec_u8 obind norm_val]. rewrite nb_eqb1.
+      apply Hfin. apply (Hcont seen u_dec Hctx Hseen). intros Hs. rewrite (Hnot Hs). reflexivity.
+    + apply Ok_inj in E1. subst b1. cbn [dec_field app dec_u8 obind norm_val]. rewrite (wf_esm_roundtrip e Hv).
+      apply andb_true_iff in Hctx. destruct Hctx as [Hns Hctx]. apply negb_true_iff in Hns.
+      pose proof (Hnot Hns) as Hu. rewrite udhi_of_cons in Hu.
+      rewrite (esm_free_udhi lay u_enc ks vs (ctx_ok_seen_esm_free _ _ _ Hctx) Hvs), orb_false_r in Hu.
+      apply Hfin. apply (Hcont true (e_udhi e) Hctx); [intros _; congruence | discriminate].
+    + apply Ok_inj in E1. subst b1. cbn [dec_field app dec_u8 obind norm_val]. rewrite (wf_regdel_roundtrip r Hv).
+      apply Hfin. apply (Hcont seen u_dec Hctx Hseen). intros Hs. rewrite (Hnot Hs). reflexivity.
+    + rewrite (wf_addr_no_nul _ Hv) in E1. apply Ok_inj in E1. subst b1. cbn [dec_field]. rewrite (dec_addr_enc _ _ Hv). cbn [obind norm_val].
+      apply Hfin. apply (Hcont seen u_dec Hctx Hseen). intros Hs. rewrite (Hnot Hs). reflexivity.
+    + apply andb_true_iff in Hv. destruct Hv as [Hs1 Hd1]. cbn [dec_field].
+      rewrite (dec_dests_enc sme dl b1 (b2 ++ tail) Hs1 Hd1 E1). cbn [obind norm_val].
+      apply Hfin. apply (Hcont seen u_dec Hctx Hseen). intros Hs. rewrite (Hnot Hs). reflexivity.
+    + cbn [dec_field]. rewrite (dec_unsucc_enc l b1 (b2 ++ tail) Hv E1). cbn [obind norm_val].
+      apply Hfin. apply (Hcont seen u_dec Hctx Hseen). intros Hs. rewrite (Hnot Hs). reflexivity.
+    + apply andb_true_iff in Hctx. destruct Hctx as [Hsm Hctx]. cbn [dec_field].
+      assert (Hb : negb (l_replace lay) && l_has_esm lay && u_dec = negb (l_replace lay) && l_has_esm lay && u_enc).
+      { destruct seen; [rewrite (Hseen eq_refl); reflexivity|]. cbn [orb] in Hsm.
+        apply orb_true_iff in Hsm. destruct Hsm as [Hh|Hr].
+        - apply negb_true_iff in Hh. rewrite Hh. now rewrite !andb_false_r.
+        - rewrite Hr. reflexivity. }
+      rewrite Hb. rewrite (dec_short_enc lay u_enc m b1 (b2 ++ tail) Hv E1). cbn [obind norm_val].
+      apply Hfin. apply (Hcont seen u_dec Hctx Hseen). intros Hs. rewrite (Hnot Hs). reflexivity.
+    + apply Ok_inj in E1. subst b1. apply N.eqb_eq in Hv. subst v. cbn [dec_field app obind norm_val].
+      apply Hfin. apply (Hcont seen u_dec Hctx Hseen). intros Hs. rewrite (Hnot Hs). reflexivity.
+Qed.
+
+Lemma enc_fields_len lay u ks : forall vs b, enc_fields lay u ks vs = Ok b -> List.length ks = List.length vs.
+Proof.
+  induction ks as [|k ks IH]; intros [|v vs] b; cbn [enc_fields]; try discriminate; [reflexivity|].
+  destruct (enc_field lay u k v); cbn [obind]; try discriminate.
+  destruct (enc_fields lay u ks vs) as [b2| |] eqn:E; cbn [obind]; try discriminate.
+  intros _. cbn [List.length]. f_equal. eapply IH; exact E.
+Qed.
+
+Lemma wf_fields_app_tags lay u ks : forall vs0 t,
+  wf_fields lay u (ks ++ [FTags]) (vs0 ++ [VTags t]) = true -> List.length ks = List.length vs0 ->
+  wf_fields lay u ks vs0 = true /\ wf_tags t = true.
+Proof.
+  induction ks as [|k ks IH]; intros [|v vs0] t Hw Hlen; cbn [List.length] in Hlen; try discriminate.
+  - cbn [app wf_fields wf_field] in Hw. apply andb_true_iff in Hw. split; [reflexivity | apply Hw].
+  - cbn [app wf_fields] in Hw. apply andb_true_iff in Hw. destruct Hw as [Hv Hvs].
+    destruct (IH vs0 t Hvs ltac:(lia)) as [H1 H2]. cbn [wf_fields]. rewrite Hv, H1. auto.
+Qed.
+
+(* C02, decoder side, full form: a frame laid out from the specification with its TLVs in ANY order
+   decodes to exactly the values laid out.  [l] is the transmitted TLV list: any permutation of the
+   value's TLVs. *)
+Theorem spec_frame_any_tlv_order lay ks h vs0 t l body0 tlvs :
+  l_fields lay = FHeader :: ks ++ [FTags] -> existsb is_tags ks = false ->
+  lay_ok lay = true -> wf_vals lay (VHeader h :: vs0 ++ [VTags t]) ->
+  enc_fields lay (udhi_of (vs0 ++ [VTags t])) ks vs0 = Ok body0 ->
+  Permutation (filter nonempty t) l -> forallb tlv_ok l = true -> lay_all lay_tlv l = Some tlvs ->
+  16 + len body0 + len tlvs <= 65536 ->
+  unmarshal lay (spec_frame (l_id lay) 0 (u32_of_i32 (h_seq h)) (body0 ++ tlvs))
+  = Ok (VHeader {| h_len := 16 + len body0 + len tlvs; h_id := l_id lay; h_status := 0; h_seq := h_seq h |}
+        :: map norm_val vs0 ++ [VTags (filter nonempty t)]).
+Proof.
+  intros Hl Htf Hlay Hwf Hb0 Hperm Hok Htl Hlen.
+  unfold wf_vals in Hwf. rewrite Hl in Hwf. destruct Hwf as (Hseq & Hst & Hw).
+  unfold lay_ok in Hlay. rewrite Hl in Hlay. apply andb_true_iff in Hlay. destruct Hlay as [Hctx Hid].
+  unfold unmarshal. rewrite Hl. unfold spec_frame. rewrite !be4_be32.
+  rewrite dec_header_enc; [| rewrite len_app; lia | lia | lia | apply u32_of_i32_lt].
+  cbn [obind h_status N.eqb negb]. rewrite i32_u32 by exact Hseq.
+  (* split the well-formedness and the context over ks ++ [FTags] *)
+  destruct (wf_fields_app_tags lay _ ks vs0 t Hw (enc_fields_len lay _ ks vs0 body0 Hb0)) as (Hw0 & Hwt).
+  assert (Hctx0 : ctx_ok (l_has_esm lay) (l_replace lay) false ks = true).
+  { clear -Hctx Htf. revert Hctx. generalize false. induction ks as [|k ks IH]; intros seen Hc; [reflexivity|].
+    cbn [existsb] in Htf. apply orb_false_iff in Htf. destruct Htf as [Hk Hks].
+    destruct k; cbn [app ctx_ok] in *; try discriminate; try (apply IH; assumption).
+    - apply andb_true_iff in Hc. destruct Hc as [H1 H2]. rewrite H1. cbn [andb]. apply IH; assumption.
+    - apply andb_true_iff in Hc. destruct Hc as [H1 H2]. rewrite H1. cbn [andb]. apply IH; assumption. }
+  assert (Hud : udhi_of (vs0 ++ [VTags t]) = udhi_of vs0).
+  { unfold udhi_of. rewrite existsb_app. cbn [existsb]. now rewrite !orb_false_r. }
+  rewrite Hud in *.
+  destruct (fields_roundtrip_tail lay [FTags] tlvs ks vs0 false (udhi_of vs0) false body0 Htf Hctx0) as [u' E];
+    try assumption; try reflexivity; try discriminate.
+  rewrite E. cbn [dec_fields dec_field].
+  rewrite (dec_tags_any_order l tlvs Hok Htl). cbn [obind].
+  (* the canonical form of the transmitted list is the value's (sorted) TLV list *)
+  unfold wf_tags in Hwt. apply andb_true_iff in Hwt. destruct Hwt as [Hst' _].
+  assert (Hk : kv_sort l = filter nonempty t).
+  { rewrite <- (kv_sort_perm (filter nonempty t) l).
+    - apply kv_sort_sorted. apply sorted_filter. exact Hst'.
+    - (* keys of a sorted list are distinct *)
+      clear -Hst'. assert (Hs : sorted_keys (filter nonempty t) = true) by (apply sorted_filter; exact Hst').
+      revert Hs. generalize (filter nonempty t). intros m. induction m as [|[k v] m IH]; intros Hs; [constructor|].
+      cbn [map fst]. constructor.
+      + intros Hin. apply in_map_iff in Hin. destruct Hin as (e & He & Hin). cbn [sorted_keys] in Hs.
+        pose proof (keys_above_in k m e Hs Hin). lia.
+      + apply IH. apply (sorted_keys_tail k v m Hs).
+    - exact Hperm. }
+  rewrite Hk. change (slen (body0 ++ tlvs)) with (len (body0 ++ tlvs)). rewrite len_app.
+  replace (16 + (len body0 + len tlvs)) with (16 + len body0 + len tlvs) by lia. reflexivity.
+Qed.
